@@ -280,6 +280,8 @@ static Result run_case(const Case &c) {
   if (nb >= 2) r.tag("multi_block");
   r.tag("comp_" + std::to_string(c.cfg.eff_comp()));
   if (c.exec_tool) r.tag("exec_verify");
+  if (c.cfg.prefix_len) r.tag("foreign_prefix");
+  if (c.cfg.prefix_len >= 5000) r.tag("foreign_prefix_ge_5000");
   return r;
 }
 
@@ -287,7 +289,9 @@ static Case gen_case() {
   Case c;
   c.cfg = gen_config(true, false);
   c.cfg.by_path = false;
-  c.cfg.prefix_len = chance(20) ? 13 : 0;
+  // foreign bytes before the table: none, a few, or more than the whole data area (mtbl_verify and the reader both have to
+  // keep file positions and positions inside the data area apart)
+  c.cfg.prefix_len = chance(45) ? one_of<int>({1, 13, 511, 512, 513, 5000, 70000}) : 0;
   c.entries = gen_table(c.cfg.eff_block_size(), 2 + current_size() / 4, false);
   c.block = pick(0, 40);
   if (chance(35)) {
